@@ -17,7 +17,7 @@ PATTERNS = ["^a", "b$", "^.$", "z"]
 PP_PATTERNS = ["^a", "^[bc]$", "."]
 ROOT_URLS = ["http://sim.test/root/main.json", "http://sim.test/root/main.json",
              "http://sim.test/main.json", "sim://h/r/main.json", ""]
-DOC_URLS = ["http://sim.test/root/d1.json", "http://sim.test/root/sub/d2.json",
+DOC_URLS = ["http://sim.test/root/d1.json", "http://sim.test/root/sub/d1.json", "http://sim.test/root/sub/d2.json",
             "http://sim.test/d3.json", "sim://h/r/d4.json",
             "http://other.test/o/d5.json", "https://sim.test/root/d6.json"]
 TYPE_NAMES = {
@@ -121,6 +121,13 @@ class WorldGen(object):
                 homes.append(rng.choice(["root", "root"] + self.doc_urls))
         rng.shuffle(homes)
         self.homes = homes
+        # definition names collide across documents on purpose (n0, n1, ... per home): the same
+        # reference string "#/definitions/n0" designates different schemas under different bases
+        count = {}
+        self.names = []
+        for h in homes:
+            self.names.append("n%d" % count.get(h, 0))
+            count[h] = count.get(h, 0) + 1
         self.custom = None
         if k.custom_types or k.custom_keywords:
             self.custom = {"types": ["even", "nonempty"] if k.custom_types else [],
@@ -150,7 +157,7 @@ class WorldGen(object):
             root[self.idkw] = self.root_url
         top = self.top_level(self.root_url)
         root.update(top)
-        rdefs = dict(("d%d" % i, defs[i]) for i in range(k.ndefs) if homes[i] == "root")
+        rdefs = dict((self.names[i], defs[i]) for i in range(k.ndefs) if homes[i] == "root")
         if rdefs:
             root["definitions"] = rdefs
         docs = {}
@@ -162,7 +169,7 @@ class WorldGen(object):
             elif r < 0.4:
                 doc[self.idkw] = u + "#"
             doc.update(self.leaf(allow_bool=False) if rng.random() < 0.5 else {})
-            doc["definitions"] = dict(("d%d" % i, defs[i]) for i in range(k.ndefs) if homes[i] == u)
+            doc["definitions"] = dict((self.names[i], defs[i]) for i in range(k.ndefs) if homes[i] == u)
             docs[u] = doc
         store_docs = [u for u in self.doc_urls if rng.random() < k.store_rate]
         # the caller may spell a store key with a trailing '#': it designates the same document
@@ -206,7 +213,7 @@ class WorldGen(object):
     def ref_to_def(self, base, j):
         home = self.homes[j]
         url = self.root_url if home == "root" else home
-        sp = spellings(base, url, "/definitions/d%d" % j)
+        sp = spellings(base, url, "/definitions/" + self.names[j])
         if not sp:
             return None
         r = self.rng.choice(sp)
@@ -223,7 +230,7 @@ class WorldGen(object):
                 if sp:
                     return {"$ref": rng.choice(sp)}
             if kind < 0.8:
-                return {"$ref": "http://sim.test/root/missing.json#/definitions/d0"}
+                return {"$ref": "http://sim.test/root/missing.json#/definitions/n0"}
             return {"$ref": "nosuch://x/y.json"}
         cands = []
         n = k.ndefs
